@@ -289,7 +289,7 @@ impl Prop for C13 {
                     0u64..=1_000_000_000
                 ],
                 prop_oneof![
-                    select(vec![1e-9, 1.0000000000000002e-9, 1e-8, 9.9e-9, 1e-6, 0.01, 0.5, 0.99, 1.0 - 1e-9, 0.999999999, 0.9999999999999999]),
+                    select(vec![0.0, 1.0, 1e-9, 1.0000000000000002e-9, 1e-8, 9.9e-9, 1e-6, 0.01, 0.5, 0.99, 1.0 - 1e-9, 0.999999999, 0.9999999999999999]),
                     0.0f64..1.0
                 ],
                 extreme_words(8),
